@@ -208,6 +208,32 @@ def gen(tier, rng):
                     ops.append(O("show", n=1, i=i + 1))
             ops.append(O("close", n=1))
             hs.append(("random-short", ops, ""))
+    # (d3b) PUT without an LSET since the last FIELD or GET: the record buffer goes out as it stands - a record copied with
+    # GET r1 / PUT r2, written twice with one LSET, written right after FIELD (blank), after the file was opened again
+    for ws in ([4], [3, 5], [2, 2, 2]):
+        ln = sum(ws)
+        for variant in ("copy", "twice", "blank", "reopen-copy", "partial"):
+            ops = [O("open", n=1, name="C", mode="random", len=ln), O("field", n=1, ws=ws)]
+            if variant != "blank":
+                for i in range(len(ws)):
+                    ops.append(O("lset", n=1, i=i + 1, text=S(["first", "ab", "Z"][i % 3])))
+                ops.append(O("put", n=1, r=1))
+            if variant == "copy":
+                ops += [O("get", n=1, r=1), O("put", n=1, r=2)]
+            elif variant == "twice":
+                ops += [O("put", n=1, r=3)]
+            elif variant == "blank":
+                ops += [O("put", n=1, r=1)]
+            elif variant == "reopen-copy":
+                ops += [O("close", n=1), O("open", n=1, name="C", mode="random", len=ln), O("field", n=1, ws=ws), O("get", n=1, r=1), O("put", n=1, r=2)]
+            else:
+                ops += [O("get", n=1, r=1), O("lset", n=1, i=1, text=S("N")), O("put", n=1, r=2)]
+            for r in (1, 2, 3):
+                ops.append(O("get", n=1, r=r))
+                for i in range(len(ws)):
+                    ops.append(O("show", n=1, i=i + 1))
+            ops.append(O("close", n=1))
+            hs.append(("random-put-as-is:" + variant, ops, ""))
     # (d4) records survive CLOSE: the file is opened again FOR RANDOM (same or another handle) and read / extended
     for ws in ([4], [3, 5]):
         ln = sum(ws)
